@@ -45,6 +45,9 @@ type Server struct {
 	TCPPort       int      `json:"tcpPort,omitempty"`
 	UDPPort       int      `json:"udpPort,omitempty"`
 	Acceptors     int      `json:"acceptors,omitempty"` // concurrent Server.Accept callers in the server application (default 1)
+	ExtraTCPPorts []int    `json:"extraTcpPorts,omitempty"` // further TCP ports the server listens on (a port range / several bindings)
+	ExtraUDPPorts []int    `json:"extraUdpPorts,omitempty"`
+	NoAccept      bool     `json:"noAccept,omitempty"` // the server application never calls Accept (its backlog fills up)
 	// RawMux: the applications take proxy connections straight from the session multiplexers
 	// (protocol.Mux DialContext/Accept), as mieru's own client and server programs do, instead
 	// of through apis/client and apis/server. No SOCKS request precedes the data: the
@@ -390,6 +393,7 @@ type Probe struct {
 	// server's replay detection has not seen it; only proper prefixes are sent.
 	Intercepted bool `json:"intercepted,omitempty"`
 	CutTail     int  `json:"cutTail,omitempty"` // intercepted: send the segment without its last CutTail bytes (overrides Arg)
+	Port        int  `json:"port,omitempty"`    // if set: the probe goes to this server port (a sibling listener) instead of the one the victim uses
 }
 
 // SegGeo is the byte geometry of one decoded segment (reference pass of C04).
